@@ -356,9 +356,11 @@ func (c *Client) Send(packet stanza.Packet) error {
 	// Without a session (before Connect, after a failed Connect or Resume) there is nothing to hold
 	// the stanza in: the write below reports that the client is not connected.
 	if session := c.Session; c.config.StreamManagementEnable && session != nil {
-		_, isRequest := packet.(stanza.SMRequest)
-		_, isAnswer := packet.(stanza.SMAnswer)
-		if !isRequest && !isAnswer {
+		switch packet.(type) {
+		case stanza.SMRequest, *stanza.SMRequest, stanza.SMAnswer, *stanza.SMAnswer:
+			// Acknowledgement requests and answers are not stanzas: they are neither held nor
+			// counted, whether they are passed by value or by pointer.
+		default:
 			toStore := stanza.UnAckedStz{Stz: string(data)}
 			session.SMState.UnAckQueue.Push(&toStore)
 		}
